@@ -87,3 +87,54 @@ fn k_real_mul_small_int() {
     assert!((a * b) * c == a * (b * c));
     assert!(a * (b + c) == (a * b) + (a * c));
 }
+
+fn tiny_int() -> f64 {
+    let i: i8 = kani::any();
+    kani::assume(-4 <= i && i <= 4);
+    i as f64
+}
+
+/// semiring laws of the expected-utility type on exactly representable values (integers |x| <= 4): domain-bounded
+#[kani::proof]
+fn k_eu_semiring_small_int() {
+    use rsdd::util::semirings::Semiring;
+    let (a, b, c) = (ExpectedUtility(tiny_int(), tiny_int()), ExpectedUtility(tiny_int(), tiny_int()), ExpectedUtility(tiny_int(), tiny_int()));
+    let (one, zero) = (ExpectedUtility::one(), ExpectedUtility::zero());
+    assert!((a + b) + c == a + (b + c));
+    assert!(a + b == b + a);
+    assert!(a + zero == a && zero + a == a);
+    assert!(a * one == a && one * a == a);
+    assert!(a * zero == zero && zero * a == zero);
+    assert!(a * b == b * a);
+    assert!((a - b) + b == a);
+}
+
+#[kani::proof]
+fn k_eu_semiring_small_int_mul() {
+    let (a, b, c) = (ExpectedUtility(tiny_int(), tiny_int()), ExpectedUtility(tiny_int(), tiny_int()), ExpectedUtility(tiny_int(), tiny_int()));
+    assert!((a * b) * c == a * (b * c));
+    assert!(a * (b + c) == (a * b) + (a * c));
+}
+
+/// semiring laws of the complex type on exactly representable values (integers |x| <= 4): domain-bounded
+#[kani::proof]
+fn k_complex_small_int() {
+    use rsdd::util::semirings::{Complex, Semiring};
+    let mk = || Complex { re: tiny_int(), im: tiny_int() };
+    let (a, b, c) = (mk(), mk(), mk());
+    let (one, zero) = (Complex::one(), Complex::zero());
+    assert!((a + b) + c == a + (b + c));
+    assert!(a + b == b + a);
+    assert!(a + zero == a && a * one == a && a * zero == zero);
+    assert!(a * b == b * a);
+    assert!((a - b) + b == a);
+}
+
+#[kani::proof]
+fn k_complex_small_int_mul() {
+    use rsdd::util::semirings::Complex;
+    let mk = || Complex { re: tiny_int(), im: tiny_int() };
+    let (a, b, c) = (mk(), mk(), mk());
+    assert!((a * b) * c == a * (b * c));
+    assert!(a * (b + c) == (a * b) + (a * c));
+}
